@@ -1,0 +1,99 @@
+//go:build verif
+
+// Contracts for the deductive verifier in /verif (gvc). Comment-only: compiled only under the build
+// tag `verif`, contains no code.
+package config
+
+// ---- C14: which files are analysed ------------------------------------------------------------------------
+// name of a file as the pass sees it
+//@ macro func fileName(pass *analysis.Pass, f *ast.File) string = pass.Fset.Position(f.Pos()).Filename
+// a file is skipped iff its name contains an exclude-paths entry, or it is a _test.go file and scan-tests is off
+//@ pure func skipFile(c *Config, pass *analysis.Pass, f *ast.File) bool = (exists i int :: 0 <= i && i < len(c.ExcludePaths) && strings.Contains(fileName(pass, f), c.ExcludePaths[i])) || (!c.ScanTests && strings.HasSuffix(fileName(pass, f), "_test.go"))
+
+//@ func Config.ShouldSkipFile
+//@   props C14 C10
+//@   requires pass != nil && file != nil
+//@   ensures result == skipFile(c, pass, file)
+//@   assigns nothing
+//@   loop 1 invariant forall i int :: 0 <= i && i < $i ==> !strings.Contains(fileName(pass, file), c.ExcludePaths[i])
+
+// FilterFiles yields exactly the files of the pass that are not skipped, in the order of pass.Files
+//@ func Config.FilterFiles
+//@   props C14 C10 C01 C02 C03 C04 C07 C09
+//@   requires pass != nil && (forall i int :: 0 <= i && i < len(pass.Files) ==> pass.Files[i] != nil)
+//@   ensures forall k int :: 0 <= k && k < len(result) ==> result[k] != nil && !skipFile(c, pass, result[k]) && contains(pass.Files, result[k])
+//@   ensures forall i int :: 0 <= i && i < len(pass.Files) && !skipFile(c, pass, pass.Files[i]) ==> contains(result, pass.Files[i])
+//@   assigns nothing
+//@   loop 1 invariant !$stopped
+//@   loop 1 invariant forall k int :: 0 <= k && k < len($yielded) ==> $yielded[k] != nil && !skipFile(c, pass, $yielded[k]) && contains(pass.Files, $yielded[k])
+//@   loop 1 invariant forall i int :: 0 <= i && i < $i && !skipFile(c, pass, pass.Files[i]) ==> contains($yielded, pass.Files[i])
+
+// ---- C18: configuration values ------------------------------------------------------------------------------
+// a boolean spelling is true exactly for 1/t/true (Go's ParseBool spellings, any case) and yes/on, blanks trimmed
+//@ macro func boolSpelling(s string) bool = strings.ToLower(strings.TrimSpace(s)) == "1" || strings.ToLower(strings.TrimSpace(s)) == "t" || strings.ToLower(strings.TrimSpace(s)) == "true" || strings.ToLower(strings.TrimSpace(s)) == "yes" || strings.ToLower(strings.TrimSpace(s)) == "on"
+//@ func parseBool
+//@   props C18 C10
+//@   ensures result == boolSpelling(s)
+//@   assigns nothing
+
+// items of a comma list: each part trimmed, empty parts dropped, upper-cased when asked
+//@ macro func listItem(part string, up bool) string = up ? strings.ToUpper(strings.TrimSpace(part)) : strings.TrimSpace(part)
+//@ macro func listHas(input string, up bool, x string) bool = input != "" && (exists k int :: 0 <= k && k < len(strings.Split(input, ",")) && strings.TrimSpace(strings.Split(input, ",")[k]) != "" && x == listItem(strings.Split(input, ",")[k], up))
+//@ func parseStringList
+//@   props C18 C08 C10
+//@   ensures result != nil
+//@   ensures forall x string :: contains(result, x) <==> listHas(input, toUpper, x)
+//@   ensures forall k int :: 0 <= k && k < len(result) ==> result[k] != ""
+//@   ensures len(result) <= len(strings.Split(input, ","))
+//@   assigns nothing
+//@   loop 1 invariant result != nil && len(result) <= $i
+//@   loop 1 invariant forall x string :: contains(result, x) <==> (exists k int :: 0 <= k && k < $i && strings.TrimSpace(parts[k]) != "" && x == listItem(parts[k], toUpper))
+//@   loop 1 invariant forall k int :: 0 <= k && k < len(result) ==> result[k] != ""
+
+//@ func parseEnvValue
+//@   props C18 C10
+//@   ensures envSet(key) ==> (forall x string :: contains(result, x) <==> listHas(envVal(key), toUpper, x))
+//@   ensures !envSet(key) ==> result == defaultValue
+//@   assigns nothing
+
+//@ func New
+//@   props C18 C10
+//@   fresh
+//@   ensures result != nil && result.ScanTests == scanTests && result.ExcludePaths == excludePaths && result.ExcludeChecks == excludeChecks
+//@   assigns nothing
+//@ func Default
+//@   props C18 C10
+//@   fresh
+//@   ensures result != nil && !result.ScanTests && len(result.ExcludePaths) == 1 && result.ExcludePaths[0] == "testdata" && len(result.ExcludeChecks) == 0
+//@   assigns nothing
+//@ func Empty
+//@   props C18 C10
+//@   fresh
+//@   ensures result != nil && !result.ScanTests && len(result.ExcludePaths) == 0 && len(result.ExcludeChecks) == 0
+//@   assigns nothing
+
+// environment > default: a variable that is set (even to the empty string) wins over the default
+//@ func FromEnv
+//@   props C18 C10
+//@   fresh
+//@   ensures result != nil
+//@   ensures result.ScanTests == (envSet("GOGREEMENT_SCAN_TESTS") && boolSpelling(envVal("GOGREEMENT_SCAN_TESTS")))
+//@   ensures forall x string :: contains(result.ExcludePaths, x) <==> (envSet("GOGREEMENT_EXCLUDE_PATHS") ? listHas(envVal("GOGREEMENT_EXCLUDE_PATHS"), false, x) : x == "testdata")
+//@   ensures forall x string :: contains(result.ExcludeChecks, x) <==> (envSet("GOGREEMENT_EXCLUDE_CHECKS") && listHas(envVal("GOGREEMENT_EXCLUDE_CHECKS"), true, x))
+//@   assigns nothing
+
+//@ func Config.WithScanTests
+//@   props C18 C10
+//@   fresh
+//@   ensures result != nil && result.ScanTests == scanTests && result.ExcludePaths == c.ExcludePaths && result.ExcludeChecks == c.ExcludeChecks
+//@   assigns nothing
+//@ func Config.WithExcludePaths
+//@   props C18 C10
+//@   fresh
+//@   ensures result != nil && result.ScanTests == c.ScanTests && result.ExcludePaths == excludePaths && result.ExcludeChecks == c.ExcludeChecks
+//@   assigns nothing
+//@ func Config.WithExcludeChecks
+//@   props C18 C10
+//@   fresh
+//@   ensures result != nil && result.ScanTests == c.ScanTests && result.ExcludePaths == c.ExcludePaths && result.ExcludeChecks == excludeChecks
+//@   assigns nothing
